@@ -58,6 +58,10 @@ type Analyzer struct {
 	// Recorded reads of input bytes etc. are available through atoms (Op/Args).
 	steps    int
 	MaxSteps int
+	// RangeFuncYieldExempt: do not decide "yield called after the loop exited" (default: decided, E1.rangefunc)
+	RangeFuncYieldExempt bool
+	// extCallback: closures currently being driven by an external (library) function through the callback model
+	extCallback map[*ssa.Function]int
 	// StepsUsed: the largest number of interpreted instructions any entry of this analyzer needed (budget calibration)
 	StepsUsed       int
 	entryFn         *ssa.Function
@@ -105,6 +109,8 @@ type Analyzer struct {
 	OnMapUpdate func(fn *ssa.Function, ins *ssa.MapUpdate, st *State, m, k, v Term)
 	// OnAppend observes append calls (dst slice, appended operand).
 	OnAppend func(fn *ssa.Function, site ssa.Instruction, st *State, dst *Slice, src Term)
+	// OnAppendUint observes binary.{Big,Little}Endian.AppendUintN(dst, val): width bytes of val appended to dst.
+	OnAppendUint func(fn *ssa.Function, site ssa.Instruction, st *State, dst *Slice, width int64, val Term, littleEndian bool)
 	// Reused: bases whose backing array is overwritten in place (E4), with the reason.
 	Reused map[int]string
 	// OnExternal observes calls of functions without a repo body (library calls).
@@ -176,7 +182,7 @@ func New(p *load.Program) *Analyzer {
 	return &Analyzer{P: p, K: 48, MaxDepth: 14, atoms: map[string]*Atom{}, finfo: map[*ssa.Function]*funcInfo{},
 		derefObj: map[int]*Obj{}, elemObj: map[string]*Obj{}, globObj: map[*ssa.Global]*Obj{},
 		Reach: map[*ssa.Function]bool{}, GoTargets: map[*ssa.Function]bool{}, AssumedTotal: map[string]int{},
-		Analysed: map[*ssa.Function]int{}, MaxSteps: 4_000_000,
+		Analysed: map[*ssa.Function]int{}, MaxSteps: 40_000_000,
 		strBases: map[string]*Base{}, freshObjs: map[int]bool{}, locTypes: map[Loc]types.Type{}, strEq: map[int][2]*Slice{},
 		live: map[*ssa.Function]*liveInfo{}, Track: map[int]bool{}, Stored: map[Loc]bool{}, taint: map[int]map[Loc]bool{}, initTerm: map[Loc]Term{}, ifaceRecv: map[string]Term{}, Reused: map[int]string{}, mapOrigin: map[int]Loc{}, nilCmp: map[int]int{}, OpaqueUsed: map[*ssa.Function]int{}, boolSrc: map[int]*BoolSrc{}, sentinelCache: map[*ssa.Global]bool{}, PureHelpers: map[string]bool{}}
 }
